@@ -634,6 +634,7 @@ func (r *Request) Send() (*Response, error) {
 // Used by ReleaseRequest to recycle the object.
 func (r *Request) Reset() {
 	r.url = ""
+	r.client = nil
 	r.method = fiber.MethodGet
 	r.userAgent = ""
 	r.referer = ""
